@@ -117,6 +117,9 @@ def main(argv):
         log('harness error: PEP-316 contract lines found in code under test:', rc.stdout)
         return 2
 
+    only = os.environ.get('VERIF_ONLY')                          # development aid: run only the shards whose name contains this text
+    if only:
+        jobs = [j for j in jobs if only in j['name']]
     jobs.sort(key=lambda j: -float(j.get('cond_timeout', 60)))
     log(f'[{prop}/{tier}] {len(jobs)} jobs on {NCPU} cores; open known findings: {known_tags}')
     results = []
